@@ -295,7 +295,7 @@ fn routes(ctx: &mut Ctx) {
 }
 
 /// documented well-typed call of every function: (text, input)
-fn canonical_calls() -> Vec<(String, String, String)> {
+pub fn canonical_calls() -> Vec<(String, String, String)> {
     let docs: serde_json::Value = serde_json::from_str(DOCS).unwrap();
     let mut out = Vec::new();
     for f in docs.as_array().unwrap() {
